@@ -125,6 +125,8 @@ pub enum Op {
     DropEp,
     Sleep { us: u32 },
     Yield,
+    /// `Connection::authenticated()` (resolves when the handshake completed, 0-RTT accepted or not)
+    Authenticated(Cancel),
 }
 
 #[derive(Clone, Debug, Serialize, Deserialize)]
@@ -205,7 +207,11 @@ pub struct SideM {
     pub closes: Vec<CloseRec>,
     pub first_err: Option<(String, u64)>,
     pub next_open: [u64; 2],
+    /// streams opened in 0-RTT that the server then rejected (ids are handed out again afterwards)
+    pub next_open_early: [u64; 2],
     pub next_accept: [u64; 2],
+    /// a probe of `authenticated()` found the handshake complete
+    pub connected_seen: bool,
     pub dgram_sent: BTreeMap<u64, usize>,
     pub dgram_maybe: BTreeMap<u64, usize>,
     pub dgram_got: BTreeSet<u64>,
@@ -238,6 +244,8 @@ pub struct PendOp {
     pub stream: Option<(DKey, bool)>,
     pub off: u64,
     pub since: u64,
+    /// stream whose blocked-reader/writer slot the operation registers in (kept when `stream` is cleared)
+    pub wkey: Option<(DKey, bool)>,
 }
 
 #[derive(Default)]
@@ -257,6 +265,26 @@ pub struct Model {
     pub app_tasks: u64,
     pub trace: bool,
     pub log: Vec<String>,
+    /// set in worlds of the 0-RTT sub-check
+    pub z: Option<ZWorld>,
+}
+
+/// 0-RTT sub-check: connection 0 provisions the ticket, connection 1 is attempted with `into_0rtt`
+pub struct ZWorld {
+    /// the server's early-data policy (the generated value)
+    pub rejected: bool,
+    pub half_rtt: bool,
+    /// the server validates the client's address with Retry on the second connection
+    pub retry: bool,
+    pub client_crypto: Arc<SimClientConfig>,
+    /// `into_0rtt()` succeeded on the client
+    pub used: bool,
+    /// datagrams accepted by `send_datagram` before the handshake completed
+    pub early_dgrams: BTreeSet<u64>,
+    pub early_handles: u64,
+    pub early_ops: u64,
+    /// (raw stream id, reader side) of rejected 0-RTT handles dropped after the handshake completed
+    pub clobbered: BTreeSet<(u64, bool)>,
 }
 
 impl Model {
@@ -331,6 +359,93 @@ impl Ctx {
         if m.pending.iter().any(|(t, p)| *t != me && p.conn.map(|c| c.0) == Some(ci)) {
             m.drops_while_pending += 1;
             m.labels.insert(label);
+        }
+    }
+}
+
+impl Ctx {
+    /// (0-RTT sub-check) whether the client of connection 1 is known to have completed its
+    /// handshake: `authenticated()` polled once, non-blocking. quinn sets `connected` in the same
+    /// driver poll (under the connection lock) in which `is_handshaking()` turns false, so this is
+    /// exactly the instant from which `check_0rtt()` can fail.
+    fn z_connected(&self, c: &quinn::Connection, ci: usize, side: usize) -> bool {
+        if self.m.borrow().conns[ci].sides[side].connected_seen {
+            return true;
+        }
+        let w = noop_waker();
+        let mut cx = Context::from_waker(&w);
+        let f = c.authenticated();
+        let mut f = std::pin::pin!(f);
+        let done = matches!(f.as_mut().poll(&mut cx), Poll::Ready(Ok(())));
+        if done {
+            self.m.borrow_mut().conns[ci].sides[side].connected_seen = true;
+        }
+        done
+    }
+    /// Whether something created on (ci, side) right now belongs to the client's 0-RTT phase
+    fn z_early(&self, c: &quinn::Connection, ci: usize, side: usize) -> bool {
+        let used = self.m.borrow().z.as_ref().map_or(false, |z| z.used);
+        // (on a connection that already failed nothing can be opened, and streams accepted from it
+        // were queued by the peer, i.e. after the handshake)
+        used && ci == 1 && side == 0 && !self.z_connected(c, ci, side) && c.close_reason().is_none()
+    }
+    /// Z3: whether the blocked-reader/writer registration of pending operation `p` may have been
+    /// removed by the drop of a rejected 0-RTT handle that had the same stream id
+    fn z_clobbered(&self, p: &PendOp) -> bool {
+        match (&self.m.borrow().z, p.wkey) {
+            (Some(z), Some((k, reader))) => k.0 == 1 && z.clobbered.contains(&(k.1 & !EARLY_BIT, reader)),
+            _ => false,
+        }
+    }
+    fn z_note_drop(&self, early: bool, zc: &Option<quinn::Connection>, ci: usize, side: usize, raw: u64, reader: bool) {
+        if early && self.z_rejected() {
+            if let Some(c) = zc {
+                if self.z_connected(c, ci, side) {
+                    if let Some(z) = self.m.borrow_mut().z.as_mut() {
+                        z.clobbered.insert((raw & !EARLY_BIT, reader));
+                    }
+                }
+            }
+        }
+    }
+    fn z_rejected(&self) -> bool {
+        self.m.borrow().z.as_ref().map_or(false, |z| z.used && z.rejected)
+    }
+    /// An operation on a stream handle completed; `zr` = with ZeroRttRejected. `early` = the handle
+    /// was created in the client's 0-RTT phase, `zc` a connection handle to probe with.
+    fn z_judge(&self, early: bool, zc: &Option<quinn::Connection>, ci: usize, side: usize, kind: &str, zr: bool) {
+        if early {
+            if let Some(z) = self.m.borrow_mut().z.as_mut() {
+                z.early_ops += 1;
+            }
+        }
+        if zr {
+            // Z1: `check_0rtt()` also fails once a connection that was still handshaking got closed
+            // or lost (is_handshaking() is false in the Closed state), so operations on 0-RTT
+            // streams then report ZeroRttRejected instead of ConnectionLost although nothing was
+            // rejected. Tolerated unless QV_C18_STRICT.
+            let lost_early = early && !self.m.borrow().conns[ci].sides[side].connected_seen && {
+                let m = self.m.borrow();
+                let s = &m.conns[ci].sides[side];
+                s.first_err.is_some() || !m.local_closes(ci, side).is_empty() || !m.peer_closes(ci, side).is_empty() || zc.as_ref().map_or(false, |c| c.close_reason().is_some())
+            };
+            if lost_early && !self.z_rejected() {
+                if strict("Z1") {
+                    self.fail("c18/strict/zero-rtt-rejected-reported-for-closed-connection", format!("{kind} on a 0-RTT stream of conn {ci} failed with ZeroRttRejected although the server accepts 0-RTT: the connection was closed or lost while still handshaking"));
+                }
+                self.label("zero-rtt-rejected-after-early-close");
+            } else if !(early && self.z_rejected()) {
+                let sig = if self.m.borrow().z.is_some() { "c18/0rtt/unexpected-zero-rtt-rejected" } else { "c18/error/zero-rtt" };
+                self.fail(sig, format!("{kind} on conn {ci} side {side} failed with ZeroRttRejected although the stream was not opened in 0-RTT or 0-RTT was not rejected (0-RTT handle: {early})"));
+            } else {
+                self.label("0rtt-rejection-observed");
+            }
+        } else if early && self.z_rejected() {
+            if let Some(c) = zc {
+                if self.z_connected(c, ci, side) {
+                    self.fail("c18/0rtt/not-rejected", format!("{kind} on a stream opened in 0-RTT (conn {ci} side {side}) completed with something other than ZeroRttRejected although the handshake has completed and the server rejected 0-RTT"));
+                }
+            }
         }
     }
 }
@@ -567,17 +682,36 @@ pub struct SendH {
     poisoned: bool,
     finished: bool,
     reset: bool,
+    /// (0-RTT sub-check) created while the client was still handshaking
+    early: bool,
+    /// ... and then a connection handle to probe the handshake state with. A `SendStream` keeps the
+    /// connection alive exactly like a `Connection` clone does, so this changes no drop semantics.
+    zc: Option<quinn::Connection>,
 }
 
+/// Streams opened in 0-RTT that the server rejects never reach it and their ids are handed out
+/// again after the handshake: the model keeps them apart with this bit in the stream id.
+const EARLY_BIT: u64 = 1 << 62;
+
 impl SendH {
-    fn new(ctx: &Ctx, s: quinn::SendStream, ci: usize, side: usize) -> Self {
+    fn new(ctx: &Ctx, s: quinn::SendStream, ci: usize, side: usize, conn: Option<&quinn::Connection>) -> Self {
         let id = s.id();
         let raw = VarInt::from(id).into_inner();
         let fwd = (id.initiator() == quinn::Side::Client) == (side == 0);
         handle_acquired(ctx, ci, side, false);
-        let key = (ci, raw, fwd);
+        let early = conn.map_or(false, |c| ctx.z_early(c, ci, side));
+        // `fwd` for a send handle = we initiated the stream
+        let key = (ci, if early && fwd && ctx.z_rejected() { raw | EARLY_BIT } else { raw }, fwd);
         ctx.m.borrow_mut().stream(key);
-        Self { s, ctx: ctx.clone(), ci, side, key, poisoned: false, finished: false, reset: false }
+        if early {
+            if let Some(z) = ctx.m.borrow_mut().z.as_mut() {
+                z.early_handles += 1;
+            }
+        }
+        Self { s, ctx: ctx.clone(), ci, side, key, poisoned: false, finished: false, reset: false, early, zc: if early { conn.cloned() } else { None } }
+    }
+    fn z_other(&self, kind: &str) {
+        self.ctx.z_judge(self.early, &self.zc, self.ci, self.side, kind, false);
     }
     fn written(&self) -> u64 {
         self.ctx.m.borrow_mut().stream(self.key).written
@@ -586,6 +720,7 @@ impl SendH {
 
 impl Drop for SendH {
     fn drop(&mut self) {
+        self.ctx.z_note_drop(self.early, &self.zc, self.ci, self.side, self.key.1, false);
         let now = self.ctx.now();
         if !self.finished && !self.reset {
             self.ctx.note_drop(self.ci, "drop-sendstream");
@@ -613,23 +748,33 @@ pub struct RecvH {
     /// quinn will not send an implicit STOP_SENDING on drop
     no_implicit_stop: bool,
     lost_by_illegal_read: bool,
+    early: bool,
+    zc: Option<quinn::Connection>,
 }
 
 impl RecvH {
-    fn new(ctx: &Ctx, r: quinn::RecvStream, ci: usize, side: usize) -> Self {
+    fn new(ctx: &Ctx, r: quinn::RecvStream, ci: usize, side: usize, conn: Option<&quinn::Connection>) -> Self {
         let id = r.id();
         let raw = VarInt::from(id).into_inner();
         // data flows towards us: forward direction iff the peer initiated the stream
         let fwd = (id.initiator() == quinn::Side::Client) != (side == 0);
         handle_acquired(ctx, ci, side, false);
-        let key = (ci, raw, fwd);
+        let early = conn.map_or(false, |c| ctx.z_early(c, ci, side));
+        if conn.is_some() && ctx.m.borrow().z.is_some() && ci == 1 && side == 0 && r.is_0rtt() != early {
+            ctx.fail("c18/0rtt/is-0rtt-flag", format!("RecvStream::is_0rtt() is {} for {id} although the handshake had{} completed when the stream was created", r.is_0rtt(), if early { " not" } else { "" }));
+        }
+        let key = (ci, if early && !fwd && ctx.z_rejected() { raw | EARLY_BIT } else { raw }, fwd);
         ctx.m.borrow_mut().stream(key);
-        Self { r, ctx: ctx.clone(), ci, side, key, off: 0, unordered: false, ranges: vec![], terminal: false, no_implicit_stop: false, lost_by_illegal_read: false }
+        Self { r, ctx: ctx.clone(), ci, side, key, off: 0, unordered: false, ranges: vec![], terminal: false, no_implicit_stop: false, lost_by_illegal_read: false, early, zc: if early { conn.cloned() } else { None } }
+    }
+    fn z_other(&self, kind: &str) {
+        self.ctx.z_judge(self.early, &self.zc, self.ci, self.side, kind, false);
     }
 }
 
 impl Drop for RecvH {
     fn drop(&mut self) {
+        self.ctx.z_note_drop(self.early, &self.zc, self.ci, self.side, self.key.1, true);
         let now = self.ctx.now();
         if !self.no_implicit_stop {
             self.ctx.note_drop(self.ci, "drop-recvstream");
@@ -670,8 +815,13 @@ impl<'a> PlanRun<'a> {
 /// commits), so they are always checked. D2, D4, D5 and D8 contradict neither the property as stated
 /// nor the rustdoc of the operations involved (see DESIGN.md) and D7 is known finding
 /// c08/local-close-reported of C08; `QV_C18_STRICT=1` reports those as well.
+/// Z1, Z2, Z3 are findings of the 0-RTT sub-check. Z2 (`finish()` on a rejected 0-RTT handle acts on
+/// the stream that reuses its id) and Z3 (dropping a rejected 0-RTT handle removes the waker of the
+/// stream that reuses its id) were genuine defects, repaired in quinn, and are always checked. Z1
+/// (`ZeroRttRejected` reported for a connection closed while handshaking) concerns which error an
+/// operation completes with, which the property does not fix: tolerated unless `QV_C18_STRICT=1`.
 pub fn strict(d: &str) -> bool {
-    (matches!(d, "D1" | "D3" | "D6") && std::env::var("QV_C18_LENIENT").is_err()) || std::env::var("QV_C18_STRICT").is_ok()
+    (matches!(d, "D1" | "D3" | "D6" | "Z2" | "Z3") && std::env::var("QV_C18_LENIENT").is_err()) || std::env::var("QV_C18_STRICT").is_ok()
 }
 
 /// Results that a probe may find ready without that being reported (default mode only).
@@ -703,6 +853,7 @@ never_benign!(
     Result<Option<VarInt>, quinn::ResetError>,
     Result<Option<VarInt>, StoppedError>,
     Result<(), SendDatagramError>,
+    Result<(), ConnectionError>,
 );
 impl<T> Benign for Result<T, WriteError> {
     fn benign(&self) -> bool {
@@ -770,6 +921,17 @@ where
                     }
                     this.ctx.label("stop-masked-by-connection-window");
                     return Poll::Ready(OpRes::Done(v));
+                }
+                if let Some(pp) = &p {
+                    if this.ctx.z_clobbered(pp) {
+                        // Z3: the registration of this operation was removed when a rejected 0-RTT
+                        // handle with the same stream id was dropped (NOTES)
+                        if strict("Z3") {
+                            this.ctx.fail("c18/strict/rejected-0rtt-handle-drop-removes-waker-of-reused-stream", format!("no task was ready, yet re-polling the pending {kind} future (pending since {} ns) completed it at {} ns; a rejected 0-RTT stream handle with the same stream id was dropped meanwhile, which removed this operation's blocked-reader/writer registration ({pp:?})", pp.since, this.ctx.now()));
+                        }
+                        this.ctx.label("waker-removed-by-rejected-0rtt-handle-drop");
+                        return Poll::Ready(OpRes::Done(v));
+                    }
                 }
                 let kind = if kind == "stopped-after-reset" { "strict-stopped-after-reset" } else { kind };
                 this.ctx.fail(format!("c18/lost-wakeup/{kind}"), format!("no task was ready, yet re-polling the pending {kind} future (pending since {} ns) completed it at {} ns: it was never woken after its condition became true ({p:?})", p.as_ref().map_or(0, |p| p.since), this.ctx.now()));
@@ -956,19 +1118,22 @@ fn no_cancel() -> Cancel {
 
 impl SendH {
     fn pend(&self, kind: &'static str) -> PendOp {
-        PendOp { kind, conn: Some((self.ci, self.side)), stream: Some((self.key, false)), off: 0, since: 0 }
+        PendOp { kind, conn: Some((self.ci, self.side)), stream: Some((self.key, false)), off: 0, since: 0, wkey: Some((self.key, false)) }
     }
     fn wrote(&self, n: u64) {
+        self.z_other("write");
         self.ctx.m.borrow_mut().stream(self.key).written += n;
     }
     /// a multi-write of `n` bytes (announced as `extra` before it started) completed
     fn wrote_all(&self, n: u64) {
+        self.z_other("write_all");
         let mut m = self.ctx.m.borrow_mut();
         let d = m.stream(self.key);
         d.written += n;
         d.extra -= n;
     }
     fn write_err(&mut self, e: &WriteError, p: &PendOp) {
+        self.ctx.z_judge(self.early, &self.zc, self.ci, self.side, p.kind, matches!(e, WriteError::ZeroRttRejected));
         match e {
             WriteError::Stopped(code) => {
                 let code = code.into_inner();
@@ -988,14 +1153,15 @@ impl SendH {
                     self.ctx.fail("c18/error/unexpected-closed-stream", format!("{} on {:?} failed with ClosedStream although the stream was neither finished nor reset locally", p.kind, self.key));
                 }
             }
-            WriteError::ZeroRttRejected => self.ctx.fail("c18/error/zero-rtt", format!("{} reported ZeroRttRejected on a 1-RTT stream", p.kind)),
+            // judged above; nothing more can be written to a rejected 0-RTT stream
+            WriteError::ZeroRttRejected => self.poisoned = true,
         }
     }
 }
 
 impl RecvH {
     fn pend(&self, kind: &'static str) -> PendOp {
-        PendOp { kind, conn: Some((self.ci, self.side)), stream: Some((self.key, true)), off: self.off, since: 0 }
+        PendOp { kind, conn: Some((self.ci, self.side)), stream: Some((self.key, true)), off: self.off, since: 0, wkey: Some((self.key, true)) }
     }
 
     fn bound(&self) -> u64 {
@@ -1006,6 +1172,7 @@ impl RecvH {
 
     /// `data` was delivered for stream offset `off`
     fn got_data(&mut self, what: &str, off: u64, data: &[u8], ordered: bool) {
+        self.z_other(what);
         let ctx = self.ctx.clone();
         if data.is_empty() {
             ctx.fail("c18/integrity/empty-read", format!("{what} on {:?} returned zero bytes", self.key));
@@ -1044,6 +1211,7 @@ impl RecvH {
     }
 
     fn got_eof(&mut self, what: &str) {
+        self.z_other(what);
         let ctx = self.ctx.clone();
         self.terminal = true;
         self.no_implicit_stop = true;
@@ -1075,6 +1243,7 @@ impl RecvH {
     }
 
     fn got_reset(&mut self, what: &str, code: VarInt) {
+        self.z_other(what);
         self.terminal = true;
         self.no_implicit_stop = true;
         let code = code.into_inner();
@@ -1091,6 +1260,9 @@ impl RecvH {
 
     /// returns true if the error was the expected IllegalOrderedRead
     fn got_err(&mut self, e: &ReadError, p: &PendOp, ordered: bool) {
+        if !matches!(e, ReadError::ZeroRttRejected | ReadError::Reset(_)) {
+            self.z_other(p.kind);
+        }
         match e {
             ReadError::Reset(code) => self.got_reset(p.kind, *code),
             ReadError::ConnectionLost(e) => {
@@ -1117,7 +1289,11 @@ impl RecvH {
                     self.lost_by_illegal_read = true;
                 }
             }
-            ReadError::ZeroRttRejected => self.ctx.fail("c18/error/zero-rtt", format!("{} reported ZeroRttRejected on a 1-RTT stream", p.kind)),
+            ReadError::ZeroRttRejected => {
+                self.ctx.z_judge(self.early, &self.zc, self.ci, self.side, p.kind, true);
+                self.terminal = true;
+                self.no_implicit_stop = true;
+            }
         }
     }
 }
@@ -1279,6 +1455,10 @@ fn verify_dgram(ctx: &Ctx, ci: usize, side: usize, b: &[u8]) {
         m.fail("c18/integrity/datagram", format!("conn {ci} side {side} received a datagram (id {id}, {} bytes) that differs from everything the peer sent (sent len {len:?})", b.len()));
         return;
     }
+    if ci == 1 && side == 1 && m.z.as_ref().map_or(false, |z| z.used && z.rejected && z.early_dgrams.contains(&id)) {
+        m.fail("c18/0rtt/early-datagram-delivered", format!("the server application received datagram {id}, which the client sent before its handshake completed, although the server rejected 0-RTT (early data must not be conveyed)"));
+        return;
+    }
     let s = &mut m.conns[ci].sides[side];
     s.dgram_read += 1;
     if !s.dgram_got.insert(id) {
@@ -1288,26 +1468,34 @@ fn verify_dgram(ctx: &Ctx, ci: usize, side: usize, b: &[u8]) {
 
 impl Task {
     fn new_send(&mut self, ctx: &Ctx, s: quinn::SendStream, opened: bool) {
-        let h = SendH::new(ctx, s, self.ci, self.side);
-        check_stream_id(ctx, self.ci, self.side, h.s.id(), opened);
+        let c = self.conn.as_ref().map(|c| &c.c);
+        let h = SendH::new(ctx, s, self.ci, self.side, c);
+        check_stream_id(ctx, self.ci, self.side, h.s.id(), opened, h.key.1 & EARLY_BIT != 0);
         self.sends.push(h);
     }
     fn new_recv(&mut self, ctx: &Ctx, r: quinn::RecvStream) {
-        let h = RecvH::new(ctx, r, self.ci, self.side);
+        let c = self.conn.as_ref().map(|c| &c.c);
+        let h = RecvH::new(ctx, r, self.ci, self.side, c);
         self.recvs.push(h);
     }
     fn cpend(&self, kind: &'static str) -> PendOp {
-        PendOp { kind, conn: Some((self.ci, self.side)), stream: None, off: 0, since: 0 }
+        PendOp { kind, conn: Some((self.ci, self.side)), stream: None, off: 0, since: 0, wkey: None }
     }
 }
 
 /// opened / accepted streams come in consecutive index order per direction, from the right side
-fn check_stream_id(ctx: &Ctx, ci: usize, side: usize, id: quinn::StreamId, opened: bool) {
+fn check_stream_id(ctx: &Ctx, ci: usize, side: usize, id: quinn::StreamId, opened: bool, early_rejected: bool) {
     let mut m = ctx.m.borrow_mut();
     let d = id.dir() as usize;
     let local = (id.initiator() == quinn::Side::Client) == (side == 0);
     let s = &mut m.conns[ci].sides[side];
-    let next = if opened { &mut s.next_open[d] } else { &mut s.next_accept[d] };
+    let next = if opened && early_rejected {
+        &mut s.next_open_early[d]
+    } else if opened {
+        &mut s.next_open[d]
+    } else {
+        &mut s.next_accept[d]
+    };
     let want = *next;
     *next = (*next).max(id.index() + 1);
     if local != opened || id.index() != want {
@@ -1349,7 +1537,7 @@ async fn exec_op(ctx: &Ctx, t: &mut Task, op: &Op) {
                 let (out, p, _) = ctx.run_shared(t.cpend("accept_uni"), c, None, &|| cq.accept_uni()).await;
                 match out {
                     Some(Ok(r)) => {
-                        check_stream_id(ctx, ci, side, r.id(), false);
+                        check_stream_id(ctx, ci, side, r.id(), false, false);
                         t.new_recv(ctx, r);
                     }
                     Some(Err(e)) => ctx.check_conn_err(ci, side, &e, &p),
@@ -1359,8 +1547,8 @@ async fn exec_op(ctx: &Ctx, t: &mut Task, op: &Op) {
                 let (out, p, _) = ctx.run_shared(t.cpend("accept_bi"), c, None, &|| cq.accept_bi()).await;
                 match out {
                     Some(Ok((s, r))) => {
-                        check_stream_id(ctx, ci, side, r.id(), false);
-                        let h = SendH::new(ctx, s, ci, side);
+                        check_stream_id(ctx, ci, side, r.id(), false, false);
+                        let h = SendH::new(ctx, s, ci, side, t.conn.as_ref().map(|c| &c.c));
                         t.sends.push(h);
                         t.new_recv(ctx, r);
                     }
@@ -1465,6 +1653,18 @@ async fn exec_op(ctx: &Ctx, t: &mut Task, op: &Op) {
             if let Some(i) = pick(*s, t.sends.len()) {
                 let h = &mut t.sends[i];
                 let now = ctx.now();
+                // Z2: `SendStream::finish()` does not consult `check_0rtt()` (unlike write, reset,
+                // stopped and drop). After a rejection stream ids are handed out again, so finish()
+                // on a rejected 0-RTT handle finishes whatever 1-RTT stream now owns the id. Scripts
+                // do not call it on a rejected handle unless QV_C18_STRICT.
+                if h.early && ctx.z_rejected() && !strict("Z2") {
+                    if let Some(c) = &h.zc {
+                        if ctx.z_connected(c, ci, side) {
+                            ctx.label("finish-on-rejected-0rtt-skipped");
+                            return;
+                        }
+                    }
+                }
                 match h.s.finish() {
                     Ok(()) => {
                         h.finished = true;
@@ -1475,7 +1675,8 @@ async fn exec_op(ctx: &Ctx, t: &mut Task, op: &Op) {
                         }
                     }
                     Err(_) => {
-                        if !h.finished && !h.reset {
+                        // (finish() on a rejected 0-RTT stream is undocumented: Ok or ClosedStream)
+                        if !h.finished && !h.reset && !(h.early && ctx.z_rejected()) {
                             ctx.fail("c18/error/unexpected-closed-stream", format!("finish on {:?} failed with ClosedStream although the stream was neither finished nor reset", h.key));
                         }
                     }
@@ -1511,6 +1712,9 @@ async fn exec_op(ctx: &Ctx, t: &mut Task, op: &Op) {
                 }
                 let sref = &h.s;
                 let (out, p, _) = ctx.run_shared(h.pend(if h.reset { "stopped-after-reset" } else { "stopped" }), c, None, &|| sref.stopped()).await;
+                if let Some(r) = &out {
+                    ctx.z_judge(h.early, &h.zc, ci, side, "stopped", matches!(r, Err(StoppedError::ZeroRttRejected)));
+                }
                 match out {
                     Some(Ok(Some(code))) => {
                         let code = code.into_inner();
@@ -1530,7 +1734,7 @@ async fn exec_op(ctx: &Ctx, t: &mut Task, op: &Op) {
                         }
                     }
                     Some(Err(StoppedError::ConnectionLost(e))) => ctx.check_conn_err(ci, side, &e, &p),
-                    Some(Err(StoppedError::ZeroRttRejected)) => ctx.fail("c18/error/zero-rtt", "stopped() reported ZeroRttRejected on a 1-RTT stream"),
+                    Some(Err(StoppedError::ZeroRttRejected)) => {}
                     None => ctx.label("cancel-stopped"),
                 }
             }
@@ -1668,6 +1872,7 @@ async fn exec_op(ctx: &Ctx, t: &mut Task, op: &Op) {
                         h.got_eof("read_to_end");
                     }
                     Some(Err(ReadToEndError::TooLong)) => {
+                        h.z_other("read_to_end");
                         h.terminal = true;
                         if h.bound().saturating_sub(h.off) <= limit as u64 {
                             ctx.fail("c18/integrity/too-long", format!("read_to_end({limit}) on {:?} failed with TooLong but at most {} bytes were written after offset {}", h.key, h.bound(), h.off));
@@ -1699,6 +1904,11 @@ async fn exec_op(ctx: &Ctx, t: &mut Task, op: &Op) {
                     pend.stream = None;
                 }
                 let (out, p) = op_mut!(ctx, pend, c, true, h.r.received_reset());
+                match &out {
+                    Some(Err(quinn::ResetError::ZeroRttRejected)) => ctx.z_judge(h.early, &h.zc, ci, side, "received_reset", true),
+                    Some(Ok(None)) | Some(Err(quinn::ResetError::ConnectionLost(_))) => h.z_other("received_reset"),
+                    _ => {}
+                }
                 match out {
                     Some(Ok(Some(code))) => h.got_reset("received_reset", code),
                     Some(Ok(None)) => {
@@ -1712,7 +1922,10 @@ async fn exec_op(ctx: &Ctx, t: &mut Task, op: &Op) {
                         h.no_implicit_stop = true;
                         ctx.check_conn_err(ci, side, &e, &p);
                     }
-                    Some(Err(quinn::ResetError::ZeroRttRejected)) => ctx.fail("c18/error/zero-rtt", "received_reset() reported ZeroRttRejected"),
+                    Some(Err(quinn::ResetError::ZeroRttRejected)) => {
+                        h.terminal = true;
+                        h.no_implicit_stop = true;
+                    }
                     None => {
                         ctx.label("cancel-received-reset");
                         // The cancelled future leaves its waker in `blocked_readers` even when the
@@ -1778,7 +1991,18 @@ async fn exec_op(ctx: &Ctx, t: &mut Task, op: &Op) {
                     }
                 }
             } else {
-                conn.c.send_datagram(data).map_err(|e| (e, t.cpend("send_datagram")))
+                // a datagram accepted before the handshake completed is early data: if the server
+                // rejects 0-RTT it must never reach the peer's application
+                let early = ctx.z_early(&conn.c, ci, side);
+                let r = conn.c.send_datagram(data).map_err(|e| (e, t.cpend("send_datagram")));
+                if early && r.is_ok() {
+                    if let Some(z) = ctx.m.borrow_mut().z.as_mut() {
+                        z.early_dgrams.insert(id);
+                        z.early_ops += 1;
+                    }
+                    ctx.label("early-datagram");
+                }
+                r
             };
             match res {
                 Ok(()) => {
@@ -1793,6 +2017,10 @@ async fn exec_op(ctx: &Ctx, t: &mut Task, op: &Op) {
                     if max.map_or(false, |m| len <= m) {
                         ctx.fail("c18/error/datagram-too-large", format!("datagram of {len} bytes rejected as TooLarge although max_datagram_size() was {max:?}"));
                     }
+                }
+                Err((SendDatagramError::UnsupportedByPeer, _)) if ctx.m.borrow().z.is_some() && ci == 1 && !ctx.z_connected(&conn.c, ci, side) => {
+                    // before the handshake completed (0-RTT / 0.5-RTT) the peer's limits may be unknown
+                    ctx.label("datagram-unsupported-before-handshake");
                 }
                 Err((e, _)) => ctx.fail("c18/error/datagram", format!("send_datagram failed with {e:?} although both peers enable datagrams")),
             }
@@ -1846,7 +2074,7 @@ async fn exec_op(ctx: &Ctx, t: &mut Task, op: &Op) {
         Op::WaitIdle(c) => {
             let Some(ep) = &t.ep else { return };
             let eq = &ep.e;
-            let pend = PendOp { kind: "wait_idle", conn: None, stream: None, off: 0, since: 0 };
+            let pend = PendOp { kind: "wait_idle", conn: None, stream: None, off: 0, since: 0, wkey: None };
             let (out, _, _) = ctx.run_shared(pend, c, None, &|| eq.wait_idle()).await;
             match out {
                 Some(()) => {
@@ -1863,6 +2091,19 @@ async fn exec_op(ctx: &Ctx, t: &mut Task, op: &Op) {
         Op::DropEp => t.ep = None,
         Op::Sleep { us } => sleep(&ctx.sim, *us as u64 * 1000).await,
         Op::Yield => Yield::default().await,
+        Op::Authenticated(c) => {
+            let Some(conn) = &t.conn else { return };
+            let cq = &conn.c;
+            let (out, p, _) = ctx.run_shared(t.cpend("authenticated"), c, None, &|| cq.authenticated()).await;
+            match out {
+                Some(Ok(())) => {
+                    ctx.m.borrow_mut().conns[ci].sides[side].connected_seen = true;
+                    ctx.label("authenticated");
+                }
+                Some(Err(e)) => ctx.check_conn_err(ci, side, &e, &p),
+                None => ctx.label("cancel-authenticated"),
+            }
+        }
     }
 }
 
@@ -2048,7 +2289,7 @@ async fn client_root(ctx: Ctx, ep: EpH, ci: usize) {
             return;
         }
     };
-    let pend = PendOp { kind: "connect", conn: Some((ci, 0)), stream: None, off: 0, since: 0 };
+    let pend = PendOp { kind: "connect", conn: Some((ci, 0)), stream: None, off: 0, since: 0, wkey: None };
     let (out, p) = ctx.run_owned(pend, &prog.connect_cancel, connecting).await;
     ctx.m.borrow_mut().eps[ep.idx].creators -= 1;
     match out {
@@ -2064,12 +2305,88 @@ async fn client_root(ctx: Ctx, ep: EpH, ci: usize) {
 }
 
 async fn server_root(ctx: Ctx, ep: EpH, ci: usize, connecting: quinn::Connecting) {
-    let pend = PendOp { kind: "handshake", conn: Some((ci, 1)), stream: None, off: 0, since: 0 };
+    let half = ci == 1 && ctx.m.borrow().z.as_ref().map_or(false, |z| z.half_rtt);
+    if half {
+        // 0.5-RTT: the server application starts before the client's Finished arrived
+        match connecting.into_0rtt() {
+            Ok(conn) => {
+                ctx.label("half-rtt");
+                return start_side(ctx, conn, ep, ci, 1).await;
+            }
+            Err(_) => {
+                ctx.fail("c18/0rtt/server-into-0rtt", "into_0rtt() failed on an incoming connection (documented to always succeed)");
+                return;
+            }
+        }
+    }
+    let pend = PendOp { kind: "handshake", conn: Some((ci, 1)), stream: None, off: 0, since: 0, wkey: None };
     let (out, p) = ctx.run_owned(pend, &no_cancel(), connecting).await;
     match out {
         Some(Ok(conn)) => start_side(ctx, conn, ep, ci, 1).await,
         Some(Err(e)) => ctx.check_conn_err(ci, 1, &e, &p),
         None => {}
+    }
+}
+
+fn z_client_config(ctx: &Ctx, ci: usize) -> quinn::ClientConfig {
+    let crypto = ctx.m.borrow().z.as_ref().expect("0-RTT world").client_crypto.clone();
+    let mut c = quinn::ClientConfig::new(crypto);
+    c.transport_config(transport(&ctx.sc.cfg));
+    let id = dcid(ctx.sc.seed, ci);
+    c.initial_dst_cid_provider(Arc::new(move || quinn::ConnectionId::new(&id)));
+    c
+}
+
+/// 0-RTT sub-check: connection 0 obtains the session ticket and is closed, connection 1 is converted
+/// with `into_0rtt()` and its application tasks start before the handshake has made any progress.
+async fn z_client_root(ctx: Ctx, ep: EpH) {
+    // --- connection 0
+    match ep.e.connect_with(z_client_config(&ctx, 0), server_addr(), "localhost") {
+        Ok(connecting) => {
+            let pend = PendOp { kind: "connect", conn: Some((0, 0)), stream: None, off: 0, since: 0, wkey: None };
+            let (out, p) = ctx.run_owned(pend, &no_cancel(), connecting).await;
+            match out {
+                Some(Ok(conn)) => start_side(ctx.clone(), conn, ep.dup(), 0, 0).await,
+                Some(Err(e)) => ctx.check_conn_err(0, 0, &e, &p),
+                None => {}
+            }
+        }
+        Err(e) => ctx.fail("c18/error/connect", format!("connect_with failed with {e:?}")),
+    }
+    sleep(&ctx.sim, 1_000_000).await;
+    // --- connection 1
+    let connecting = match ep.e.connect_with(z_client_config(&ctx, 1), server_addr(), "localhost") {
+        Ok(c) => c,
+        Err(e) => {
+            ctx.fail("c18/error/connect", format!("connect_with failed with {e:?}"));
+            ctx.m.borrow_mut().eps[ep.idx].creators -= 1;
+            return;
+        }
+    };
+    match connecting.into_0rtt() {
+        Ok(conn) => {
+            {
+                let mut m = ctx.m.borrow_mut();
+                m.eps[ep.idx].creators -= 1;
+                let z = m.z.as_mut().unwrap();
+                z.used = true;
+                let l = if z.rejected { "0rtt-rejecting-server" } else { "0rtt-accepting-server" };
+                m.labels.insert(l);
+            }
+            start_side(ctx, conn, ep, 1, 0).await
+        }
+        Err(connecting) => {
+            // no ticket (connection 0 failed): an ordinary connection
+            ctx.label("no-0rtt-keys");
+            let pend = PendOp { kind: "connect", conn: Some((1, 0)), stream: None, off: 0, since: 0, wkey: None };
+            let (out, p) = ctx.run_owned(pend, &no_cancel(), connecting).await;
+            ctx.m.borrow_mut().eps[ep.idx].creators -= 1;
+            match out {
+                Some(Ok(conn)) => start_side(ctx, conn, ep, 1, 0).await,
+                Some(Err(e)) => ctx.check_conn_err(1, 0, &e, &p),
+                None => {}
+            }
+        }
     }
 }
 
@@ -2081,7 +2398,7 @@ async fn acceptor(ctx: Ctx, ep: EpH) {
     while n < actions.len() && strays < 8 {
         let act = &actions[n];
         let cancel = ctx.sc.accept_cancel.get(n).cloned().unwrap_or_default();
-        let pend = PendOp { kind: "accept", conn: None, stream: None, off: 0, since: 0 };
+        let pend = PendOp { kind: "accept", conn: None, stream: None, off: 0, since: 0, wkey: None };
         let deadline = ctx.now() + ACCEPT_DEADLINE_NS;
         let eq = &ep.e;
         let (out, _, _) = ctx.run_shared(pend, &cancel, Some(deadline), &|| eq.accept()).await;
@@ -2112,6 +2429,12 @@ async fn acceptor(ctx: Ctx, ep: EpH) {
         let now = ctx.now();
         let refuse_rec = |ctx: &Ctx| ctx.m.borrow_mut().conns[ci].refused = true;
         let mut act = act.clone();
+        if let Some(retry) = ctx.m.borrow().z.as_ref().map(|z| z.retry) {
+            // 0-RTT sub-check: a consistent address-validation policy (a positional script would
+            // accept the retransmission of an Initial it has just answered with Retry, which leaves
+            // the client with keys the server's connection does not use)
+            act = if ci == 1 && retry && !inc.remote_address_validated() { IncAct::Retry } else { IncAct::Accept };
+        }
         if matches!(act, IncAct::Retry) && !inc.may_retry() {
             act = IncAct::Accept;
         }
@@ -2127,7 +2450,7 @@ async fn acceptor(ctx: Ctx, ep: EpH) {
                     ctx.sp.spawn("server-root", server_root(ctx.clone(), ep.dup(), ci, connecting));
                 }
                 Err(e) => {
-                    let pend = PendOp { kind: "incoming-accept", conn: Some((ci, 1)), stream: None, off: 0, since: now };
+                    let pend = PendOp { kind: "incoming-accept", conn: Some((ci, 1)), stream: None, off: 0, since: now, wkey: None };
                     ctx.check_conn_err(ci, 1, &e, &pend);
                 }
             },
@@ -2161,6 +2484,19 @@ async fn acceptor(ctx: Ctx, ep: EpH) {
 // ---------------------------------------------------------------------------------------------
 
 pub fn case(sc: &Scenario) -> CaseOut {
+    run_world(sc, None)
+}
+
+/// What distinguishes a world of the 0-RTT sub-check
+#[derive(Clone, Copy, Debug)]
+pub struct ZSpec {
+    pub accept_0rtt: bool,
+    pub half_rtt: bool,
+    pub retry: bool,
+}
+
+fn run_world(sc: &Scenario, zspec: Option<ZSpec>) -> CaseOut {
+    let _log = debug_log();
     let trace = std::env::var("QV_TRACE").is_ok();
     let t0 = std::time::Instant::now();
     let mut exec = Exec::new(sc.net.clone(), sc.sched.clone());
@@ -2170,6 +2506,11 @@ pub fn case(sc: &Scenario) -> CaseOut {
     }
     let n_eps = if sc.one_endpoint { 1 } else { 2 };
     let mut model = Model { trace, ..Model::default() };
+    if let Some(z) = zspec {
+        let mut cc = SimClientConfig::new();
+        cc.use_tickets = true;
+        model.z = Some(ZWorld { rejected: !z.accept_0rtt, half_rtt: z.half_rtt, retry: z.retry, client_crypto: Arc::new(cc), used: false, early_dgrams: BTreeSet::new(), early_handles: 0, early_ops: 0, clobbered: BTreeSet::new() });
+    }
     for ci in 0..sc.conns.len() {
         let mut c = ConnM { dcid: dcid(sc.seed, ci), ..ConnM::default() };
         c.sides[0].ep = n_eps - 1;
@@ -2183,7 +2524,15 @@ pub fn case(sc: &Scenario) -> CaseOut {
 
     // endpoints; the harness keeps no handle of its own
     {
-        let server = quinn::Endpoint::new_with_abstract_socket(ep_config(sc.seed, 0), Some(server_config(sc)), SimSocket::bind(&exec.sim, server_addr()), rt.clone()).expect("server endpoint");
+        let mut server_cfg = server_config(sc);
+        if let Some(z) = zspec {
+            let mut sc0 = SimServerConfig::new();
+            sc0.accept_0rtt = z.accept_0rtt;
+            server_cfg = quinn::ServerConfig::new(Arc::new(sc0), Arc::new(SimTokenKey(mix(sc.seed, 0x70))));
+            server_cfg.transport_config(transport(&sc.cfg));
+            server_cfg.time_source(Arc::new(SimClock(Arc::new(AtomicU64::new(0)))));
+        }
+        let server = quinn::Endpoint::new_with_abstract_socket(ep_config(sc.seed, 0), Some(server_cfg), SimSocket::bind(&exec.sim, server_addr()), rt.clone()).expect("server endpoint");
         let client = if sc.one_endpoint {
             server.clone()
         } else {
@@ -2192,12 +2541,16 @@ pub fn case(sc: &Scenario) -> CaseOut {
         {
             let mut m = ctx.m.borrow_mut();
             m.eps[0].creators += 1;
-            m.eps[n_eps - 1].creators += sc.conns.len() as u32;
-            m.app_tasks += 1 + sc.conns.len() as u64;
+            m.eps[n_eps - 1].creators += if zspec.is_some() { 1 } else { sc.conns.len() as u32 };
+            m.app_tasks += 1 + if zspec.is_some() { 1 } else { sc.conns.len() as u64 };
         }
         ctx.sp.spawn("acceptor", acceptor(ctx.clone(), EpH::new(&ctx, server, 0)));
-        for ci in 0..sc.conns.len() {
-            ctx.sp.spawn("client-root", client_root(ctx.clone(), EpH::new(&ctx, client.clone(), n_eps - 1), ci));
+        if zspec.is_some() {
+            ctx.sp.spawn("client-root", z_client_root(ctx.clone(), EpH::new(&ctx, client.clone(), n_eps - 1)));
+        } else {
+            for ci in 0..sc.conns.len() {
+                ctx.sp.spawn("client-root", client_root(ctx.clone(), EpH::new(&ctx, client.clone(), n_eps - 1), ci));
+            }
         }
     }
     drop(rt);
@@ -2318,6 +2671,7 @@ pub fn case(sc: &Scenario) -> CaseOut {
         }
     }
 
+    let (z_used, z_handles, z_ops) = ctx.m.borrow().z.as_ref().map_or((false, 0, 0), |z| (z.used, z.early_handles, z.early_ops));
     let (viol, labels_m, cancels, drops, app_tasks, ops_done, bytes_read, dgrams, probes, log) = {
         let m = ctx.m.borrow();
         (m.viol.clone(), m.labels.clone(), m.cancels, m.drops_while_pending, m.app_tasks, m.ops_done, m.bytes_read, m.dgrams_read, m.probes, m.log.clone())
@@ -2396,8 +2750,19 @@ pub fn case(sc: &Scenario) -> CaseOut {
     if dead_late > 0 {
         labels.push("dead-wake-late");
     }
-    let nontrivial = app_tasks >= 2 && abd >= 1 && (cancels >= 1 || drops >= 1);
+    let mut nontrivial = app_tasks >= 2 && abd >= 1 && (cancels >= 1 || drops >= 1);
+    if zspec.is_some() {
+        // 0-RTT sub-check: additionally the client really ran in 0-RTT and used an early handle
+        nontrivial = nontrivial && z_used && z_ops >= 1;
+        if z_handles > 0 {
+            labels.push("early-stream");
+        }
+        if z_ops > 0 {
+            labels.push("early-op");
+        }
+    }
     let summary = serde_json::json!({
+        "zero_rtt": z_used, "early_handles": z_handles, "early_ops": z_ops,
         "conns": sc.conns.len(), "app_tasks": app_tasks, "ops": ops_done, "steps": steps, "choices": choices,
         "app_before_driver": abd, "idle_points": idle_points, "probes": probes, "cancels": cancels,
         "drops_while_pending": drops, "bytes_read": bytes_read, "datagrams_read": dgrams, "virtual_ms": st_now / 1_000_000,
@@ -2672,6 +3037,74 @@ pub fn arb_scenario() -> impl Strategy<Value = Scenario> {
         })
 }
 
+// ---------------------------------------------------------------------------------------------
+// Sub-check c18-0rtt: the async 0-RTT / 0.5-RTT surface
+// ---------------------------------------------------------------------------------------------
+
+#[derive(Clone, Debug, Serialize, Deserialize)]
+pub struct ZScenario {
+    pub seed: u64,
+    pub net: NetSpec,
+    pub cfg: CfgSpec,
+    /// the server's early-data policy
+    pub accept_0rtt: bool,
+    /// the server application starts with `Connecting::into_0rtt()` (0.5-RTT) on the second connection
+    pub half_rtt: bool,
+    /// the acceptor answers the second connection's first Initial with Retry
+    pub retry: bool,
+    /// programs of the second (0-RTT) connection
+    pub prog: ConnProg,
+    pub sched: Vec<u8>,
+}
+
+pub fn case_0rtt(z: &ZScenario) -> CaseOut {
+    let first = ConnProg { start_delay_us: 0, connect_cancel: Cancel::default(), client: vec![vec![Op::Close { code: 0 }]], server: vec![vec![Op::Closed(Cancel::default())]] };
+    // (in 0-RTT worlds the acceptor decides by itself, see `acceptor`; the list bounds the number of Incomings)
+    let acceptor = vec![IncAct::Accept; 6];
+    let sc = Scenario {
+        seed: z.seed,
+        net: z.net.clone(),
+        cfg: z.cfg.clone(),
+        one_endpoint: false,
+        acceptor,
+        accept_cancel: vec![],
+        conns: vec![first, z.prog.clone()],
+        sched: z.sched.clone(),
+    };
+    run_world(&sc, Some(ZSpec { accept_0rtt: z.accept_0rtt, half_rtt: z.half_rtt, retry: z.retry }))
+}
+
+pub fn arb_zscenario() -> impl Strategy<Value = ZScenario> {
+    (
+        (any::<u64>(), arb_net(), arb_cfg()),
+        (any::<bool>(), any::<bool>(), prop_oneof![6 => Just(false), 1 => Just(true)]),
+        (arb_conn(), arb_flow(), any::<u8>(), any::<u8>()),
+        proptest::collection::vec((any::<bool>(), any::<u8>(), any::<u8>(), arb_cancel()), 0..3),
+        proptest::collection::vec(any::<u8>(), 0..600),
+    )
+        .prop_map(|((seed, mut net, mut cfg), (accept_0rtt, half_rtt, retry), (mut rc, flow, ft, fa), auths, sched)| {
+            // the ticket-provisioning connection runs over a clean link
+            let mut faults = vec![Fault::Deliver; 14];
+            faults.append(&mut net.faults);
+            net.faults = faults;
+            // the remembered transport parameters must allow at least one stream per direction
+            cfg.max_bi = cfg.max_bi.max(1);
+            cfg.max_uni = cfg.max_uni.max(1);
+            // one flow opened by the client comes first, so that something happens in 0-RTT
+            rc.flows.insert(0, (flow, true, ft, fa));
+            let n_tasks = rc.n_tasks;
+            let mut prog = compile(rc);
+            for (client, t, pos, c) in auths {
+                let tasks = if client { &mut prog.client } else { &mut prog.server };
+                let t = pick(t, n_tasks[if client { 0 } else { 1 }]).unwrap();
+                let v = &mut tasks[t];
+                let at = (pos as usize * (v.len() + 1)) >> 8;
+                v.insert(at, Op::Authenticated(c));
+            }
+            ZScenario { seed, net, cfg, accept_0rtt, half_rtt, retry, prog, sched }
+        })
+}
+
 pub fn run(report: &Report) -> i32 {
     report.assume("single-threaded deterministic executor: task-level interleavings only; the tokio/smol runtime adapters are not exercised");
     report.assume("SimCrypto stands in for TLS; idle timeout 4-12 s, keep-alive off, so every connection-bound operation terminates");
@@ -2683,6 +3116,15 @@ pub fn run(report: &Report) -> i32 {
         arb_scenario,
         report.cases(400_000, 20_000_000),
         case,
+    );
+    report.assume("c18-0rtt: SimCrypto session tickets; the first connection of a world only provisions the ticket (clean link for its 14 first datagrams)");
+    run_prop(
+        report,
+        "c18-0rtt",
+        "worlds in which a first connection provisions a session ticket and the client then reconnects with Connecting::into_0rtt(): application tasks open/write/finish/stopped()/read/datagram before the handshake completes, the server accepts or rejects early data (generated), optionally starts in 0.5-RTT, optionally answers with Retry; same schedules/faults/cancellation plans and oracles as c18, plus: once the handshake completed with rejection every operation on a handle created in 0-RTT must complete with ZeroRttRejected (idle-point probes find parked ones), ZeroRttRejected only on such handles, early datagrams never reach the server application after rejection, RecvStream::is_0rtt() matches the phase, authenticated() resolves; on acceptance each early byte exactly once; non-trivial = the c18 rule and into_0rtt() succeeded and >=1 operation ran on an early handle",
+        arb_zscenario,
+        report.cases(120_000, 6_000_000),
+        case_0rtt,
     );
     report.finish("generated-input search (proptest) over deterministic async worlds")
 }
